@@ -208,6 +208,9 @@ class SetAlg:
             r = self._comp_member(e, t[2], t[3])
             if r is not None:
                 return r
+        if h == "comp" and t[1] == "dict" and t[2][0] == "kv":
+            # membership in a dict = membership among its keys
+            return self.member(e, ("comp", "set", t[2][1], t[3]))
         if h == "accum" and t[1] in ("union", "concat"):
             return f_or(*[self._member_part(e, p) for p in self.union_parts(t)])
         if h == "bigunion":
@@ -425,198 +428,6 @@ class SetAlg:
         h = t[0]
         if (h == "accum" and t[1] in ("union", "concat")) or h == "bigunion":
             return self.canon_set(t)
-        if h == "call" and isinstance(t[1], str) and (t[1] in CHAIN_NAMES or t[1].endswith("chain.from_iterable")) and len(t[2]) == 1:
-            return self.union_parts(("bigunion", t[2][0]))
-        return [t]
-
-    def _distribute(self, payload: Term, gens: tuple) -> list[Term]:
-        out = []
-        for p in self.union_parts(payload):
-            if p[0] == "bigunion" and p[1][0] == "comp":
-                out.append(("bigunion", ("comp", "set", p[1][2], gens + tuple(p[1][3]))))
-            else:
-                out.append(("bigunion", ("comp", "set", p, gens)))
-        return out
-
-    def _member_part(self, e: Term, p: Term) -> Formula:
-        if p[0] != "bigunion":
-            return self.member(e, p)
-        comp = p[1]
-        q, gens = self.strip(comp[2]), tuple(comp[3])
-        # one-point rule: ⋃_{..., v in T if c, ...} {v}  with v not used by later generators
-        if q[0] in ("setlit", "listlit", "tuplelit") and len(q[1]) == 1:
-            v = q[1][0]
-            for k, (pat, it, conds) in enumerate(gens):
-                later = gens[k + 1:]
-                if pat == v and v[0] == "var" and not any(_mentions_var(g, v) for g in later):
-                    rest = gens[:k] + later
-                    if not rest:
-                        return f_and(self.member(e, it), *[self.cond(subst(c, {v: e})) for c in conds])
-                    if not conds and not later:
-                        return self._member_part(e, ("bigunion", ("comp", "set", it, gens[:k])))
-                    break
-            mapping = None
-            if len(gens) == 1:
-                mapping = self._match_pattern(gens[0][0], v, e)
-            if mapping is not None:
-                return f_and(self.member(e, gens[0][1]), *[self.cond(subst(c, mapping)) for c in gens[0][2]])
-        cg = tuple((pat, self.canon(("setof", it)), tuple(self._canon_cond(c) for c in conds)) for pat, it, conds in gens)
-        return ("atom", ("in", e, ("bigunion", ("comp", "set", self.canon(("setof", q)) if self.is_setexpr(q) else self.canon(q), cg))))
-
-    def _comp_member(self, e: Term, elt: Term, gens: tuple) -> Formula | None:
-        """member(e, {elt for pat in it if conds}) when elt is the bound pattern itself (a filter)."""
-        if len(gens) != 1:
-            return None
-        pat, it, conds = gens[0]
-        if isinstance(elt, tuple) and elt and elt[0] == "%payload":
-            payload = self.strip(elt[1])
-            # accumulations `acc.add(x)` / `acc |= {x}` / `acc.append(x)`
-            if payload[0] in ("setlit", "listlit", "tuplelit") and len(payload[1]) == 1:
-                elt = payload[1][0]
-            else:
-                # acc |= f(x): big union -- membership is existential, keep as atom unless identity
-                return None
-        mapping = self._match_pattern(pat, elt, e)
-        if mapping is None:
-            return None
-        base = self.member(e, it)
-        cs = [self.cond(subst(c, mapping)) for c in conds]
-        return f_and(base, *cs)
-
-    def _match_pattern(self, pat: Term, elt: Term, e: Term) -> dict | None:
-        """If elt == pat structurally (identity comprehension), map bound vars to projections of e."""
-        if pat == elt:
-            if pat[0] == "var":
-                return {pat: e}
-            if pat[0] == "tuplelit":
-                m = {}
-                for i, p in enumerate(pat[1]):
-                    if p[0] != "var":
-                        return None
-                    m[p] = ("proj", e, i)
-                return m
-        return None
-
-    def eq_atom(self, a: Term, b: Term) -> Formula:
-        a, b = self.canon(a), self.canon(b)
-        if a == b:
-            return True
-        x, y = sorted([a, b], key=repr)
-        return ("atom", ("eq", x, y))
-
-    # -- conditions ----------------------------------------------------------------------------
-    def cond(self, c: Term) -> Formula:
-        c = self.rewrite(c)
-        if c == TRUE:
-            return True
-        if c == FALSE:
-            return False
-        h = c[0]
-        if h == "not":
-            return f_not(self.cond(c[1]))
-        if h == "and":
-            return f_and(*[self.cond(x) for x in c[1:]])
-        if h == "or":
-            return f_or(*[self.cond(x) for x in c[1:]])
-        if h == "in":
-            return self.member(c[1], c[2])
-        if h == "eq":
-            return self.eq_atom(c[1], c[2])
-        if h == "ne":
-            return f_not(self.eq_atom(c[1], c[2]))
-        if h == "disjoint":
-            return f_not(("atom", ("truth", self.canon(("inter", c[1], c[2])))))
-        if h == "truth":
-            inner = self.strip(c[1])
-            if self._is_empty(inner):
-                return False
-            if inner[0] in ("and", "or", "not", "in", "eq", "ne", "subset", "psubset", "disjoint", "isinstance", "any", "all", "isnone"):
-                return self.cond(inner)
-            if inner[0] == "const":
-                return bool(inner[1])
-            if inner[0] == "ite":
-                ci = self.cond(inner[1])
-                return f_or(f_and(ci, self.cond(("truth", inner[2]))), f_and(f_not(ci), self.cond(("truth", inner[3]))))
-            return ("atom", ("truth", self.canon_set(c[1])))
-        if h == "subset":
-            # A ⊆ B  <=>  A ∖ B = ∅
-            return f_not(("atom", ("truth", self.canon_set(("diff", c[1], c[2])))))
-        if h == "ite":
-            ci = self.cond(c[1])
-            return f_or(f_and(ci, self.cond(c[2])), f_and(f_not(ci), self.cond(c[3])))
-        return ("atom", self.canon(c))
-
-    # -- canonical forms -----------------------------------------------------------------------
-    def is_setexpr(self, t: Term) -> bool:
-        return t[0] in ("union", "inter", "diff", "setof", "empty") or (
-            t[0] == "comp" and t[1] == "set"
-        ) or (t[0] == "accum" and t[1] == "union")
-
-    def canon_set(self, t: Term) -> Term:
-        """Canonical representative of a collection read as a set: ('SET', atoms, table)."""
-        self._depth = getattr(self, "_depth", 0) + 1
-        x = ("var", f"%x{self._depth}")
-        try:
-            f = self.member(x, t)
-        finally:
-            self._depth -= 1
-        atoms = sorted(atoms_of(f), key=akey)
-        # drop atoms the table does not depend on
-        keep = []
-        for a in atoms:
-            others = [b for b in atoms if b != a]
-            dep = False
-            for bits in itertools.product([False, True], repeat=len(others)):
-                env = dict(zip(others, bits))
-                env[a] = False
-                v0 = evalf(f, env)
-                env[a] = True
-                if evalf(f, env) != v0:
-                    dep = True
-                    break
-            if dep:
-                keep.append(a)
-        if len(keep) > 12:
-            return ("SETX", alpha_normalise(t))
-        tb = table(f, keep)
-        if not keep:
-            return EMPTY if not tb[0] else ("UNIVERSE",)
-        if len(keep) == 1 and tb == (False, True) and keep[0][0] == "in" and keep[0][1] == x:
-            return keep[0][2]
-        return ("SET", tuple(keep), tb)
-
-    def canon_top(self, t: Any) -> Any:
-        """Canonical form for comparison: canon + a single final alpha-normalisation."""
-        return alpha_normalise(self.canon(t))
-
-    def canon(self, t: Any) -> Any:
-        """Bottom-up canonical form of an arbitrary term (set sub-terms to SET tables, alpha-normalised)."""
-        if not isinstance(t, tuple):
-            return t
-        if not is_term(t):
-            return tuple(self.canon(x) for x in t)
-        t = self.rewrite(t)
-        if self.is_setexpr(t):
-            return self.canon_set(t)
-        return self.canon_opaque(t)
-
-    def canon_opaque(self, t: Term) -> Term:
-        """Canonical form of a term whose head is not decomposed as a set expression."""
-        t = self.rewrite(t)
-        h = t[0]
-        if h == "accum" and t[1] in ("union", "concat"):
-            # base ∪ ⋃_{gens} payload
-            pay = self.strip(t[3])
-            big = ("bigunion", ("comp", "set", pay, t[4]))
-            inner = self.canon_opaque(big)
-            if self._is_empty(self.strip(t[2])):
-                return inner
-            return ("SETU", tuple(sorted([self.canon(("setof", t[2])), inner], key=akey)))
-        if h == "bigunion" and t[1][0] == "comp":
-            c = t[1]
-            elt = self.canon(("setof", c[2])) if True else c[2]
-            gens = tuple((self.canon(p), self.canon(("setof", i)), tuple(self._canon_cond(x) for x in cs)) for p, i, cs in c[3])
-            return ("bigunion", ("comp", "set", elt, gens))
         if h == "call" and isinstance(t[1], str) and (t[1] in CHAIN_NAMES or t[1].endswith("chain.from_iterable")) and len(t[2]) == 1:
             return self.canon_set(("bigunion", t[2][0]))
         if h == "comp":
